@@ -15,8 +15,13 @@ Definition names (s : string) (w : nat) : list string := bitname s <$> seq 0 w.
 (* ---- a per-circuit certificate that makes evalc THE consistent valuation, for every assignment ---- *)
 Definition boundedb (c : circuit) (r : gmap string nat) : bool :=
   bool_decide (map_Forall (λ n _, rank_of r n ≤ size c) c).
+(* rank table by relaxation, stopping at the first fixpoint (depth + 1 rounds instead of size + 1); whatever it
+   returns is CHECKED by check_rank / boundedb, so the early exit needs no proof *)
+Fixpoint relax_fix (k : nat) (c : circuit) (r : gmap string nat) : gmap string nat :=
+  match k with O => r | S k => let r' := relax c r in if bool_decide (r' = r) then r else relax_fix k c r' end.
+Definition rank_fast (c : circuit) : gmap string nat := relax_fix (S (size c)) c ∅.
 Definition certb (c : circuit) : bool :=
-  closedb c && (let r := rank_table c in check_rank c r && boundedb c r).
+  closedb c && (let r := rank_fast c in check_rank c r && boundedb c r).
 
 Lemma certb_sound c : certb c = true →
   closed c ∧ acyclic c ∧ ∀ a, consistent c (evalc c a) ∧
@@ -26,7 +31,7 @@ Proof.
   assert (Hac := check_rank_sound _ _ Hr).
   unfold check_rank in Hr. rewrite bool_decide_eq_true in Hr.
   unfold boundedb in Hb. rewrite bool_decide_eq_true in Hb.
-  set (r := rank_table c) in *.
+  set (r := rank_fast c) in *.
   assert (Hrank : ∀ n i f, c !! n = Some i → f ∈ n_fi i → rank_of r f < rank_of r n).
   { intros n i f Hn Hf. exact (Hr n i Hn f Hf). }
   split; [done|]. split; [done|]. intros a.
@@ -94,3 +99,37 @@ Proof.
   rewrite (Hext v (evalc c a)); [done|].
   apply Huniq; [done|]. intros n Hn. symmetry. by apply Ha.
 Qed.
+
+(* ---- subset sweeps for widths whose full truth table is out of reach (two-digit indices: w >= 11).
+   The vectors are generated here, from w alone; a sweep is a TEST of the returned circuit on those vectors
+   (each evaluated by the certified evaluator), not a decision for all vectors ---- *)
+Definition sweep (c : circuit) (P : val → bool) (vs : list (list string)) : bool :=
+  forallb (λ ones, P (evalc c (lval ones))) vs.
+Definition sel_ones (k s : nat) : list string :=
+  omap (λ j, if Nat.testbit s j then Some (bitname "sel_" j) else None) (seq 0 k).
+(* every select value x (all data inputs 0, or exactly one data input 1) *)
+Definition mux_sweep (w k : nat) : list (list string) :=
+  s ← seq 0 (2 ^ k); d ← [] :: ((λ i, [bitname "in_" i]) <$> seq 0 w); [(sel_ones k s ++ d)%list].
+Definition mux_sweep_ok (w : nat) (c : circuit) : bool :=
+  let k := sel_width w in
+  certb c && io_ok c (names "in_" w ++ names "sel_" k) ["out"] &&
+  sweep c (λ v, let i := N.to_nat (bitsN v "sel_" k) in
+                eqb (v "out") (if (i <? w)%nat then v (bitname "in_" i) else false)) (mux_sweep w k).
+(* zero, all ones (+1), single bits of a, of b, of both (carry from every position), each base pattern also with cin *)
+Definition adder_sweep (w : nat) (ci : bool) : list (list string) :=
+  let base := [[]; names "a_" w; (names "a_" w ++ names "b_" w)%list; (names "a_" w ++ [bitname "b_" 0])%list] in
+  (base ++ flat_map (λ i, [[bitname "a_" i]; [bitname "b_" i]; [bitname "a_" i; bitname "b_" i]]) (seq 0 w)
+   ++ (if ci then ("cin" ::.) <$> base else []))%list.
+Definition adder_sweep_ok (w : nat) (ci co : bool) (c : circuit) : bool :=
+  certb c && io_ok c (names "a_" w ++ names "b_" w ++ (if ci then ["cin"] else [])) (names "out_" w ++ (if co then ["cout"] else [])) &&
+  sweep c (λ v,
+    let total := (bitsN v "a_" w + bitsN v "b_" w + N.b2n (ci && v "cin"))%N in
+    (bitsN v "out_" w =? total mod 2 ^ N.of_nat w)%N && (negb co || (N.b2n (v "cout") =? total / 2 ^ N.of_nat w)%N))
+    (adder_sweep w ci).
+(* no input, single inputs, the first j inputs, all inputs *)
+Definition popcount_sweep (w : nat) : list (list string) :=
+  ([] :: ((λ i, [bitname "in_" i]) <$> seq 0 w) ++ ((λ j, names "in_" j) <$> seq 2 (w - 1)))%list.
+Definition popcount_sweep_ok (w : nat) (c : circuit) : bool :=
+  let m := size (outputs c) in
+  certb c && io_ok c (names "in_" w) (names "out_" m) &&
+  sweep c (λ v, (bitsN v "out_" m =? onesN v "in_" w)%N) (popcount_sweep w).
